@@ -5,6 +5,7 @@ import (
 	"fmt"
 	"strings"
 	"time"
+	"verif/gensyn"
 
 	"grol.io/grol/eval"
 	"verif/fw"
@@ -305,6 +306,25 @@ func (p c04) RunBatch(c *fw.Ctx) {
 			c.Violate("random-memoized", "random-memoized", c04Case{Inputs: []string{"func rnd() {rand(1 << 60)}; func wr() {rnd() + 0}", "wr() x20"}}, "20 calls of a wrapper around rand(1<<60) all returned the same value")
 		}
 		c.Count("statistical_rand_distinct", int64(len(seen)))
+	}
+	// the shipped example and test programs, and mutations of them that still parse, as single inputs
+	for fi, src := range corpusPrograms() {
+		if fi%c.NBatches != c.Batch {
+			continue
+		}
+		variants := []string{src}
+		for m := 0; m < c.Pick(12, 300); m++ {
+			mu := gensyn.MutateBytes(c.Rng, src)
+			if r := parseSrc(mu, false); r.accepted() {
+				variants = append(variants, mu)
+			}
+		}
+		for _, v := range variants {
+			in := []string{v}
+			c.Begin(c04Case{Inputs: in})
+			p.compare(c, in)
+			c.Count("corpus_programs", 1)
+		}
 	}
 }
 
